@@ -105,3 +105,26 @@ Theorem C19_miss_means_not_resident :
     resident k T = false /\ (id = 0 \/ id <> la + 1)%N.
 Proof. exact entry_index_audit. Qed.
 Print Assumptions C19_miss_means_not_resident.
+
+(* non-vacuity: the audit of a concrete stream with slot re-assignment, computed *)
+From PJ.Proofs Require Import NonVacuity.
+Theorem C19_audit_of_a_concrete_stream :
+  exists s, stream_new TripleStream Generic ex_opts = Ok s /\
+    audit (flat_map f_rows (emitted (snd (triples_stream_frames ex_data s)))) =
+    Some {| c_redundant := 0; c_elision := 0; c_zero := 0; c_gstart := 0; c_entries := 7 |}.
+Proof. exact audit_of_the_example. Qed.
+Print Assumptions C19_audit_of_a_concrete_stream.
+
+(* "... so with tables large enough for all distinct strings, each is sent exactly once": for every
+   rule set (name / prefix / datatype), every table size and every history whose strings come from a
+   set no larger than the table, an entry row goes out at the first use of a string and at no later
+   use.  [first_flags [] ks] marks the first occurrences in the history. *)
+From PJ.Model Require Import Api.
+From PJ.Proofs Require Import SentOnce.
+Theorem C19_each_string_sent_exactly_once :
+  forall (rule : lk_rule) (size : N) (univ ks : list str),
+    (1 <= size)%N -> NoDup univ -> (N.of_nat (length univ) <= size)%N -> Forall (fun k => In k univ) ks ->
+    Forall2 (fun first o => exists obs, o = Some obs /\ (lo_entry obs <> None <-> first = true))
+            (first_flags [] ks) (api_lookup rule size ks).
+Proof. exact api_lookup_sent_once. Qed.
+Print Assumptions C19_each_string_sent_exactly_once.
